@@ -138,8 +138,14 @@ class MessageSchema(Schema):
     @pre_load
     def to_dict(self, in_data: str, **kwargs: Any) -> dict[str, str]:  # noqa: ANN401, ARG002
         """Transform message string to a dict."""
-        list_data = in_data.rstrip().split(DELIMITER)
-        return dict(zip(self.fields, list_data, strict=False))
+        # The payload is the last field and may contain the delimiter.
+        list_data = in_data.rstrip().split(DELIMITER, len(self.fields) - 1)
+        if len(list_data) != len(self.fields):
+            raise ValidationError(
+                f"The message must have {len(self.fields)} fields "
+                f"separated by {DELIMITER}",
+            )
+        return dict(zip(self.fields, list_data, strict=True))
 
     @post_load
     def make_message(self, data: dict, **kwargs: Any) -> Message:  # noqa: ANN401, ARG002
